@@ -139,3 +139,27 @@ package bug
 //@   ensures [one-item]        !foreign ==> len(snapshot.Timeline) == 1 && typeof(snapshot.Timeline[0]) == type[*CreateTimelineItem] && snapshot.Timeline[0].(*CreateTimelineItem).CommentTimelineItem.Message == op.Message
 //@   ensures [actor]           !foreign ==> exists k int :: 0 <= k && k < len(snapshot.Actors) && snapshot.Actors[k].Id() == op.Author().Id()
 //@   ensures [participant]     !foreign ==> exists k int :: 0 <= k && k < len(snapshot.Participants) && snapshot.Participants[k].Id() == op.Author().Id()
+
+//@ func (*Bug).Operations
+//@   trusted
+//@   modifies nothing
+//@   ensures fresh(result) || len(result) == 0
+//@ func (*Bug).Id
+//@   trusted
+//@   modifies nothing
+
+// Compile (C10): the snapshot is the fold of Apply over the operations in order: starting open, with the
+// bug's id; Apply is called exactly once per operation, in order, on that snapshot, and the snapshot
+// lists exactly those operations.
+//@ func (*Bug).Compile
+//@   props C10
+//@   requires bug != nil
+//@   let c0 = old(dag.applyCount)
+//@   check [one-apply-per-op-in-order] dag.applyCount == c0 + len(rangeslice1) && (forall k int :: { rangeslice1[k] } 0 <= k && k < len(rangeslice1) ==> dag.applied[c0 + k] == rangeslice1[k] && dag.appliedOn[c0 + k] == result)
+//@   check [operations-listed] len(result.Operations) == len(rangeslice1) && (forall k int :: { rangeslice1[k] } 0 <= k && k < len(rangeslice1) ==> result.Operations[k] == rangeslice1[k])
+//@   ensures [fresh-snapshot] result != nil && fresh(result)
+//@   check [starts-open] len(rangeslice1) == 0 ==> result.Status == common.OpenStatus && len(result.Timeline) == 0 && len(result.Comments) == 0 && len(result.Labels) == 0
+//@   loop 1
+//@     invariant snap != nil && fresh(snap) && len(snap.Operations) == rangeindex + 1 && (snap.Operations == nil || fresh(snap.Operations))
+//@     invariant dag.applyCount == c0 + rangeindex + 1
+//@     invariant forall k int :: { rangeslice[k] } 0 <= k && k <= rangeindex ==> dag.applied[c0 + k] == rangeslice[k] && dag.appliedOn[c0 + k] == snap && snap.Operations[k] == rangeslice[k]
